@@ -18,7 +18,7 @@ from verus_run import verus, locate, obligation_id
 
 C01_KEYS = ('lp(', 'ext(', 'extd(', 'wf()', 'wf_ev()', 'depth(', 'open_at(', 'handed(', 'mark_ok(', 'is_open(', 'events',
             'tokens_raw', 'src@', 'n_adv', 'nested', '.index', 'tokens@ ==')
-C02_KEYS = ('prog(', '.pos', 'cur()', 'kidx(', 'rem()', 'is Some', 'is None', 'has(', '_spec(', 'MAX_DEPTH', '.depth',
+C02_KEYS = ('fuel', 'prog(', '.pos', 'cur()', 'kidx(', 'rem()', 'is Some', 'is None', 'has(', '_spec(', 'MAX_DEPTH', '.depth',
             'seq_has', 'bit(', 'handed(', 'wf()', 'wf_tok()', 'kind !=', 'tokens.len()', 'tokens@.len()')
 C02_MSGS = ('could not prove termination', 'decreases not satisfied', 'possible arithmetic', 'possible bit shift',
             'possible division', 'unreachable')
@@ -28,8 +28,8 @@ def classify(f):
     props = set()
     if any(f['message'].startswith(m) for m in C02_MSGS):
         props.add('C02')
-    if f['message'].startswith('precondition'):
-        # primary span = call site, labelled secondary span = the failed clause of the callee
+    if f['message'].startswith('precondition') or f['message'].startswith('loop invariant') or f['message'].startswith('loop ensures'):
+        # primary span = call site / break / continue, labelled secondary span = the failed clause
         texts = [c['text'] for c in f['clauses'] if c['text']] or [f['site']]
     else:
         # postcondition / invariant / assertion: the primary span is the failed clause itself
@@ -90,9 +90,9 @@ def verify_with_inference(repo, outdir):
     The last run - in which every remaining clause of an inferred contract is proved - is the result."""
     inferred = None
     log = []
-    for rnd in range(10):
+    for rnd in range(14):
         ex, fns, loops, text, linemap, info, unit = build(repo, outdir, True, inferred)
-        res = verus(unit)
+        res = verus(unit, multiple_errors=30 if inferred is not None else 10)
         if not info['defaulted']:
             break
         if inferred is None:
@@ -170,7 +170,7 @@ def run_canary(c, idx):
     for f in r['failures']:
         loc = locate(linemap, f['line'])
         fn = loc[0] if loc else None
-        if fn == c['expect_fn'] and c['expect_msg'] in f['message']:
+        if (not c['expect_fn'] or fn == c['expect_fn']) and c['expect_msg'] in f['message']:
             hits.append(obligation_id('parser', fn, f))
     shutil.rmtree(d, ignore_errors=True)
     if hits:
@@ -215,7 +215,7 @@ def deep_probe(tier):
 
 BT_QUICK = [('empty_file', 2), ('fn_1', 2), ('generic_1', 2), ('fn_name_2', 3), ('error_then_fn_2', 3), ('adt_variant_2', 3)]
 BT_THOROUGH = [('empty_file', 3), ('fn_1', 3), ('generic_1', 3), ('fn_name_2', 4), ('error_then_fn_2', 4), ('adt_variant_2', 4),
-               ('const_nested_2', 4), ('wrapped_3', 4), ('wrapped_3', 5)]
+               ('const_nested_2', 4), ('wrapped_3', 4)]
 
 
 def run_tree_builder(tier):
@@ -365,20 +365,34 @@ def main(prop, tier):
 
     # ---- violations from the verifier
     real = [f for f in mine if f not in needs_contract]
-    if real:
-        want = ('lossy', 'error-range') if prop == 'C01' else ('panic', 'hang', 'abort')
-        w = None
+    want = ('lossy', 'error-range') if prop == 'C01' else ('panic', 'hang', 'abort')
+    w = None
+    if real or needs_contract:
         try:
             k, budget = (3, 90) if tier == 'quick' else (4, 600)
-            w = witness.search(k, budget, seed=seed())
+            w = witness.search(k, budget, seed=seed(), kinds=want)
         except Undecided:
             w = None
-        for f in real:
-            name, where = repo_location(ex, linemap, f)
-            wit = w if (w and (w['kind'] in want or True)) else None
-            path = write_replay(prop, f['id'], where, 'verus 0.2026.09.13', f['rendered'], wit,
-                                './check %s --replay <this file>' % prop)
-            violations.append((path, wit is not None))
+    if needs_contract and w:
+        # a failure inside / at a function without explicit contract is normally "needs contract" (exit 2);
+        # with a concrete failing input on the real code it is a violation
+        real = real + needs_contract
+        needs_contract = []
+    # one VIOLATION line per function; the replay file lists every failed obligation of that function
+    by_fn = {}
+    for f in real:
+        by_fn.setdefault(f['fn'], []).append(f)
+    for fn, fs in by_fn.items():
+        f = fs[0]
+        name, where = repo_location(ex, linemap, f)
+        path = write_replay(prop, f['id'], where, 'verus 0.2026.09.13',
+                            '\n'.join(x['rendered'] for x in fs), w,
+                            './check %s --replay <this file>' % prop)
+        if len(fs) > 1:
+            r = json.load(open(path))
+            r['further_failed_obligations_in_this_function'] = [x['id'] for x in fs[1:]]
+            json.dump(r, open(path, 'w'), indent=1)
+        violations.append((path, w is not None))
 
     wall = time.time() - t0
     n_obl = res['verified'] + res['errors']
@@ -391,11 +405,12 @@ def main(prop, tier):
             'logos lexer: token spans non-empty, contiguous from 0 to len, on char boundaries, token kinds only (assumption i)',
             'rowan GreenNodeBuilder: a balanced call sequence yields a tree whose leaves are the token() calls in order (assumption iii)',
             'parse_module glue: lexing and trivia filtering lines (the Parser literal itself is extracted and verified in verif_top)',
-            'progress-guard fuel (Cell<u32> mutated through &self) is invisible to Verus: that Parser::nth never panics is argued from the proved depth bound (<= MAX_DEPTH levels, < 10 look-aheads each) and only bounded-checked',
+            'rewrite R10 (DESIGN.md 0.6): the progress-guard fuel `Cell<u32>` is verified as a plain `u32` field with `&mut self` receivers on nth/at/at_any; with it Verus PROVES that the fuel never reaches 0 (every call of Parser::nth satisfies `fuel > 0`), i.e. the "parser is stuck" panic is unreachable for every input - given the contract of Parser::nth (burns exactly one unit, changes nothing else), which Kani checks on the real Cell-based text',
             'machine stack: recursion depth is proved bounded by (MAX_DEPTH+1) x 16 frames; that this fits the thread stack is measured, not proved',
             'Verus, Z3 and the rewrites R1-R9 of DESIGN.md section 2.2',
         ],
         'functions_under_contract': info['contracted'],
+        'functions_under_contract_locations': sorted('%s (%s:%d)' % (nm, path, line) for (_lo, _hi, path, line, nm) in linemap if nm in info['contracted']),
         'functions_with_default_frame_contract': info['defaulted'],
         'loops_under_contract': info['loops_contracted'],
         'contract_anchors_no_longer_in_the_tree': info['dropped_anchors'],
